@@ -9,6 +9,7 @@
     the implementation was seen to execute -- never from the DB.
 """
 import statuslib
+import utdtoolslib
 from props import c03
 
 META = dict(c03.META)
@@ -36,6 +37,8 @@ META['trusted'] = list(c03.META['trusted']) + [
 
 def run(ctx):
     quick = ctx.tier == 'quick'
+    # unit-level differential test of the uptodate helpers (tools.py, result_dep) against Model/UtdTools.lean
+    utdtoolslib.run(ctx, 'C04', (600 if quick else 6000) * ctx.boost)
     n_random = (1000 if quick else 8000) * ctx.boost
     statuslib.run_property(ctx, 'C04', n_random, exh_len=(3 if quick and ctx.boost == 1 else 4 if quick else 5),
                            macro_len=(3 if quick and ctx.boost == 1 else 4),
@@ -50,4 +53,6 @@ def search(ctx):
 
 
 def replay(ctx, data):
+    if ((data.get('witness') or {}).get('case') or {}).get('kind') == 'utdtools':
+        return utdtoolslib.replay(ctx, data)
     return statuslib.replay_case(ctx, data, 'C04')
